@@ -18,5 +18,6 @@ SKELETONS = [
     ("path-escape-index", "http://x.fr/a/%", "ndex.html"),
     ("path-escape-amp", "http://x.fr/a/%", "mp/"),
     ("youtube-lang", "https://www.youtube.com/watch?v=abc&", "l=fr"),
+    ("no-scheme-port", "x.fr:", "/a?k=v"),
 ]
 LONG = ("path-escape-index", "path-escape-amp", "youtube-lang", "path", "query-key", "query-value", "query-escape", "query-item", "fragment", "redirect")
